@@ -83,10 +83,10 @@ def explore(case, program, rng, relevant, nontrivial, quick_injections=6,
                         for name in rng.sample(names, min(thorough_victims, len(names))):
                             for n in range(1, total + 2):
                                 queue.append([[n, name]])
-                        if len(queue) > 1200:
+                        if len(queue) > 300:
                             # a very long program: every boundary of it is too much for one
                             # case - an even sample of its boundaries instead
-                            queue = rng.sample(queue, 1200)
+                            queue = rng.sample(queue, 300)
                             stats['boundary_sampled_cases'] = 1
                         for _ in range(min(double, total)):
                             queue.append([[rng.randint(1, total + 1), rng.choice(names)],
